@@ -658,6 +658,12 @@ func c04(c *core.Ctx) {
 		c.EndRule()
 	}
 
+	// ---------------------------------------------------------------- R9
+	if c.Rule("R9", "the library ends a call on its own only when the caller has let go of the stream: a finalizer that calls the call's CancelFunc sits on an object that every stream operation keeps reachable while it runs — its methods are declared on that object (not promoted from an embedded value) and hold it until they return (a deferred call on the receiver or one of its fields, or runtime.KeepAlive after the delegated call)", 2) {
+		cancelFinalizers(c)
+		c.EndRule()
+	}
+
 	// ---------------------------------------------------------------- R7, R8 (HTTP deadline hand-over)
 	// "the handler's context is cancelled as well" needs the deadline to reach the handler for EVERY value the
 	// client can send, the smallest included: the client never sends a value the server takes for "no timeout"
@@ -774,4 +780,189 @@ func readyDoneOnAllPaths(p *core.Prog, header *ssa.Function) bool {
 		}
 	}
 	return false
+}
+
+// cancelFinalizers: see C04/R9. A garbage collection that happens while the
+// caller is blocked in its LAST use of the stream may run the finalizer of an
+// object nothing refers to any more; if that finalizer cancels the call, the
+// blocked operation returns Canceled although nobody cancelled.
+func cancelFinalizers(c *core.Ctx) {
+	p := c.P
+	csIface := p.ExtType(grpcPkg, "ClientStream")
+	n := 0
+	for _, fn := range p.LibFuncs("") {
+		core.Instrs(fn, func(in ssa.Instruction) {
+			call, ok := in.(*ssa.Call)
+			if !ok || !core.InfoOf(&call.Call).Is("runtime.SetFinalizer") || len(call.Call.Args) != 2 {
+				return
+			}
+			// does the finalizer cancel?
+			var body *ssa.Function
+			for _, o := range core.Origins(call.Call.Args[1]) {
+				o = core.Strip(o)
+				if mi, isMI := o.(*ssa.MakeInterface); isMI {
+					o = core.Strip(mi.X)
+				}
+				if mc, isMC := o.(*ssa.MakeClosure); isMC {
+					body, _ = mc.Fn.(*ssa.Function)
+				} else if f, isF := o.(*ssa.Function); isF {
+					body = f
+				}
+			}
+			if body == nil {
+				if mi, isMI := core.Strip(call.Call.Args[1]).(*ssa.MakeInterface); isMI {
+					if mc, isMC := core.Strip(mi.X).(*ssa.MakeClosure); isMC {
+						body, _ = mc.Fn.(*ssa.Function)
+					}
+				}
+			}
+			cancels := false
+			if body != nil {
+				core.Instrs(body, func(bi ssa.Instruction) {
+					cc := core.CallOf(bi)
+					if cc != nil && !cc.IsInvoke() && cc.StaticCallee() == nil && core.TypeStr(cc.Value.Type()) == "context.CancelFunc" {
+						cancels = true
+					}
+				})
+			}
+			if !cancels {
+				return
+			}
+			n++
+			// the object
+			objT := core.Strip(call.Call.Args[0]).Type()
+			nt, _ := core.Deref(objT).(*types.Named)
+			key := core.FuncName(fn) + ":cancel-finalizer"
+			if nt == nil {
+				c.Undecided(key, call.Pos(), "cannot tell the type of the object the cancelling finalizer is set on")
+				return
+			}
+			it, _ := csIface.Underlying().(*types.Interface)
+			var why []string
+			for i := 0; i < it.NumMethods(); i++ {
+				name := it.Method(i).Name()
+				m := declaredMethod(p, nt, name)
+				if m == nil {
+					why = append(why, name+" is promoted from an embedded value: nothing refers to the "+nt.Obj().Name()+" while the call is in progress")
+					continue
+				}
+				if len(m.Params) == 0 || !holdsReceiver(m) {
+					why = append(why, name+" does not hold its receiver until it returns")
+				}
+			}
+			if len(why) == 0 {
+				c.Ok(key+":"+nt.Obj().Name(), call.Pos(), "every ClientStream method is declared on %s and holds it until it returns", nt.Obj().Name())
+			} else {
+				c.Fail(key+":"+nt.Obj().Name(), call.Pos(), "a garbage collection during the caller's last (blocked) use of the stream runs this finalizer and cancels a call nobody cancelled: %s", strings.Join(why, "; "))
+			}
+		})
+	}
+	if n == 0 {
+		c.OkTrivial("no-cancelling-finalizer", token.NoPos, "no finalizer calls a CancelFunc")
+	}
+}
+
+// holdsReceiver: the method cannot outlive its receiver's reachability: it
+// makes no call at all (nothing to wait for), or a deferred call refers to the
+// receiver (receiver itself, the address of one of its fields, or
+// runtime.KeepAlive(receiver)), or every path to a return passes
+// runtime.KeepAlive(receiver) after the last other call.
+func holdsReceiver(m *ssa.Function) bool {
+	recv := m.Params[0]
+	derives := func(v ssa.Value) bool {
+		for i := 0; i < 6 && v != nil; i++ {
+			v = core.ResolveFree(core.Strip(v))
+			if v == ssa.Value(recv) {
+				return true
+			}
+			switch x := v.(type) {
+			case *ssa.FieldAddr:
+				v = x.X
+			case *ssa.MakeInterface:
+				v = x.X
+			case *ssa.UnOp:
+				// *(&recv) spill cell
+				if al, ok := core.Strip(x.X).(*ssa.Alloc); ok {
+					for _, st := range core.StoresTo(al) {
+						if core.Strip(st.Val) == ssa.Value(recv) {
+							return true
+						}
+					}
+				}
+				return false
+			default:
+				return false
+			}
+		}
+		return false
+	}
+	anyCall := false
+	deferred := false
+	var keepAlives []ssa.Instruction
+	core.Instrs(m, func(in ssa.Instruction) {
+		cc := core.CallOf(in)
+		if cc == nil {
+			if _, isSel := in.(*ssa.Select); isSel {
+				anyCall = true
+			}
+			if u, isU := in.(*ssa.UnOp); isU && u.Op == token.ARROW {
+				anyCall = true
+			}
+			return
+		}
+		isKA := core.InfoOf(cc).Is("runtime.KeepAlive") && len(cc.Args) == 1 && derives(cc.Args[0])
+		if d, isD := in.(*ssa.Defer); isD {
+			if isKA {
+				deferred = true
+				return
+			}
+			vals := append([]ssa.Value{d.Call.Value}, d.Call.Args...)
+			for _, v := range vals {
+				if v != nil && derives(v) {
+					deferred = true
+				}
+			}
+			if mc, isMC := core.Strip(d.Call.Value).(*ssa.MakeClosure); isMC {
+				for _, b := range mc.Bindings {
+					if derives(b) {
+						deferred = true
+					}
+				}
+			}
+			return
+		}
+		if isKA {
+			keepAlives = append(keepAlives, in)
+			return
+		}
+		anyCall = true
+	})
+	if !anyCall || deferred {
+		return true
+	}
+	if len(keepAlives) == 0 {
+		return false
+	}
+	isKAi := func(in ssa.Instruction) bool {
+		for _, k := range keepAlives {
+			if k == in {
+				return true
+			}
+		}
+		return false
+	}
+	// after every other call, each path to a return passes a KeepAlive
+	ok := true
+	core.Instrs(m, func(in ssa.Instruction) {
+		cc := core.CallOf(in)
+		if cc == nil || isKAi(in) {
+			return
+		}
+		for _, r := range core.Returns(m) {
+			if !core.MustPass(core.After(in), r, isKAi) {
+				ok = false
+			}
+		}
+	})
+	return ok
 }
